@@ -70,9 +70,17 @@ def pure(op, E, P0, Q):
     raise KeyError(kind)
 
 
-def apply(mods, op, cur, out, aux):
+def apply(mods, op, cur, out, aux, retained=None):
     kind, a, b = op
-    PC = mods['amr_kitchen.plotfile_cooker'].PlotfileCooker
+    PC0 = mods['amr_kitchen.plotfile_cooker'].PlotfileCooker
+
+    def PC(path):
+        # with retained readers, one reader object per plotfile serves every operation of the history
+        if retained is None:
+            return PC0(path)
+        if path not in retained:
+            retained[path] = PC0(path)
+        return retained[path]
     if kind == 'colander':
         mods['amr_kitchen.colander.colander'].Colander(plotfile=cur, limit_level=b, output=out, variables=(['all'] if a == 'all' else list(aux))).strain()
     elif kind == 'combine-sibling':
@@ -85,7 +93,7 @@ def apply(mods, op, cur, out, aux):
         ch.cook()
 
 
-def run_sequence(mods, P0ref, Qref, seq, ctx, canary=False):
+def run_sequence(mods, P0ref, Qref, seq, ctx, canary=False, retain=False):
     Taster = mods['amr_kitchen.taste.taste'].Taster
     fs = SymFS()
     P0ref.write_symfs(fs, '/work/p0')
@@ -95,6 +103,7 @@ def run_sequence(mods, P0ref, Qref, seq, ctx, canary=False):
     P0, Q = outcheck.from_ref(P0ref), outcheck.from_ref(Qref)
     cur = 'p0'
     applied = []
+    retained = {} if retain else None
     with patch.Patched(mods, fs), common.quiet():
         for step, op in enumerate(seq):
             E2, aux = pure(op, E, P0, Q)
@@ -103,7 +112,7 @@ def run_sequence(mods, P0ref, Qref, seq, ctx, canary=False):
             out = 'step%d' % step
             what = ' -> '.join('%s(%s)' % (o[0], ','.join(str(x) for x in o[1:] if x is not None)) for o in applied + [op])
             try:
-                apply(mods, op, cur, out, aux)
+                apply(mods, op, cur, out, aux, retained)
             except Exception as e:
                 obl.fail('%s raised %s: %s' % (what, type(e).__name__, str(e)[:120]))
                 return obl, applied
@@ -153,6 +162,21 @@ def run_case(case):
                 sig = 'C14/%s/%s' % ('>'.join(o[0] for o in applied + [OPS[seq[len(applied)]]] if True)[:80] if len(applied) < len(seq) else '>'.join(o[0] for o in applied), kind)
                 viol.setdefault(sig, {'signature': sig, 'what': msg[:400], 'seq': list(seq)})
 
+    # histories with retained reader objects: one PlotfileCooker per plotfile serves every combine of the history
+    # (cook, combine into the original, cook again, combine into the original again; and with a sibling)
+    RET = [(9, 6, 10, 6), (5, 6, 8, 6)]
+    for seq in (RET if case.get('retained') else []):
+        def rpath(ctx, seq=seq):
+            return run_sequence(mods, P0, Q, [OPS[i] for i in seq], ctx, retain=True)
+        results, exhaustive, stats = core.explore(rpath, max_paths=8)
+        res.add_explore(results, exhaustive, stats)
+        n += 1
+        for ctx, (obl, applied) in results:
+            res.add_obl(obl)
+            if obl.failed and not ctx.flags:
+                sig = 'C14/retained-readers/%s' % '>'.join(OPS[i][0] for i in seq)
+                viol.setdefault(sig, {'signature': sig, 'what': obl.failed[0][0][:400], 'seq': list(seq), 'retain': True})
+
     def canary(ctx):
         return run_sequence(mods, P0, Q, [OPS[7], OPS[1]], ctx, canary=True)
     cres, _, _ = core.explore(canary, max_paths=2)
@@ -188,6 +212,8 @@ def make_replay(P0ref, Qref, v):
     P0, Q = outcheck.from_ref(P0ref), outcheck.from_ref(Qref)
     lines = ["from amr_kitchen.colander.colander import Colander", "from amr_kitchen.combine.combine import combine", "from amr_kitchen.chef.chef import Chef",
              "from amr_kitchen import PlotfileCooker", "from amr_kitchen.taste.taste import Taster", "import contextlib, io", "os.chdir(IN)", "cur = 'p0'", "STEPS = []"]
+    if v.get('retain'):
+        lines += ["_PC0, _kept = PlotfileCooker, {}", "def PlotfileCooker(path):", "    if path not in _kept:", "        _kept[path] = _PC0(path)", "    return _kept[path]"]
     steps = []
     for step, i in enumerate(v['seq']):
         op = OPS[i]
@@ -228,7 +254,7 @@ def cases():
     allseq = singles + pairs
     chunks = 8
     for c in range(chunks):
-        out.append({'label': '2lev/len<=2/chunk%d' % c, 'mesh': m2, 'geom': geoms[c % 2], 'time': [0.1, 1.3924182125972017e-08][c % 2], 'extra': c % 2,
+        out.append({'label': '2lev/len<=2/chunk%d' % c, 'retained': c == 0, 'mesh': m2, 'geom': geoms[c % 2], 'time': [0.1, 1.3924182125972017e-08][c % 2], 'extra': c % 2,
                     'layout1': families.scatter_layouts(m2, rnd, 2), 'layout2': families.scatter_layouts(m2, rnd, 2), 'seqs': allseq[c::chunks]})
     nrand = 16 if tier == 'quick' else 800
     rs = []
@@ -237,7 +263,7 @@ def cases():
         rs.append(tuple(rnd.randrange(nops) for _ in range(L)))
     for c in range(4):
         m = [m1, m2][c % 2]
-        out.append({'label': '%s/random-len3-4/chunk%d' % (m.name, c), 'mesh': m, 'geom': geoms[(c + 1) % 2], 'time': 0.1, 'extra': 1,
+        out.append({'label': '%s/random-len3-4/chunk%d' % (m.name, c), 'retained': c == 0, 'mesh': m, 'geom': geoms[(c + 1) % 2], 'time': 0.1, 'extra': 1,
                     'layout1': families.scatter_layouts(m, rnd, 2), 'layout2': families.scatter_layouts(m, rnd, 2), 'seqs': rs[c::4]})
     return out
 
